@@ -18,7 +18,7 @@ allvars == <<vars, tvars>>
 
 Trace == ndJsonDeserialize("trace.ndjson")
 G == {"g1", "g2", "g3", "g4"}
-NoCall == [op |-> "none", t |-> 0, back |-> 0, done |-> FALSE, res |-> 0]
+NoCall == [op |-> "none", t |-> 0, back |-> 0, done |-> FALSE, res |-> 0, clean |-> FALSE]
 ProfOf(ln) == [every |-> ln.every, offset |-> ln.offset, cls |-> ln.cls]
 IsLine(k) == l <= Len(Trace) /\ Trace[l].ev = k
 
@@ -27,10 +27,18 @@ TInit == /\ TLCSet(1, 0)
          /\ InitWith(ProfOf(Trace[1]))
          /\ l = 2 /\ pend = [g \in G |-> NoCall] /\ relRet = {} /\ lateT = {}
 
+\* `clean` of a pending Release(t): no Schedule(t) call overlaps it (an overlapping Schedule may take effect after the
+\* Release, so the task may legitimately be scheduled when the Release returns)
 TCall == /\ IsLine("call")
-         /\ LET ln == Trace[l] IN
+         /\ LET ln == Trace[l]
+                overl(op, t) == \E g \in G : pend[g].op = op /\ pend[g].t = t
+            IN
             /\ pend[ln.g] = NoCall
-            /\ pend' = [pend EXCEPT ![ln.g] = [op |-> ln.op, t |-> ln.t, back |-> ln.back, done |-> FALSE, res |-> 0]]
+            /\ pend' = [g \in G |->
+                          IF g = ln.g THEN [op |-> ln.op, t |-> ln.t, back |-> ln.back, done |-> FALSE, res |-> 0,
+                                            clean |-> (ln.op = "release" /\ ~overl("schedule", ln.t))]
+                          ELSE IF ln.op = "schedule" /\ pend[g].op = "release" /\ pend[g].t = ln.t THEN [pend[g] EXCEPT !.clean = FALSE]
+                          ELSE pend[g]]
             /\ relRet' = IF ln.op = "schedule" THEN relRet \ {ln.t} ELSE relRet
          /\ l' = l + 1 /\ UNCHANGED <<vars, lateT>>
 
@@ -51,7 +59,7 @@ TRet == /\ IsLine("ret")
            IN /\ p # NoCall /\ p.done /\ p.op = ln.op
               /\ (p.op = "when" => p.res = ln.v)
               /\ pend' = [pend EXCEPT ![ln.g] = NoCall]
-              /\ relRet' = IF p.op = "release" THEN relRet \cup {p.t} ELSE relRet
+              /\ relRet' = IF p.op = "release" /\ p.clean THEN relRet \cup {p.t} ELSE relRet
         /\ l' = l + 1 /\ UNCHANGED <<vars, lateT>>
 
 TAdd == /\ IsLine("add") /\ Advance
